@@ -663,6 +663,32 @@ class HistoryGen:
                 evs.append(self.event())
         return evs
 
+    def mtu_history(self, n):
+        """several Exchange MTU Requests on one connection (growing, shrinking, equal, invalid values), each followed
+        by requests whose answers fill the MTU in force"""
+        rng = self.rng
+        evs = []
+        longs = [r for r in self.rows if r["kind"] == "KValue" and len(r["value"]) > 22] or self.by_kind.get("KValue", [])
+        while len(evs) < n:
+            m = rng.choice([23, 23, 24, 40, 64, 100, 120, 185, 247, 517, rng.randrange(23, 518), 22, 0])
+            evs.append({"op": "req", "req": ("ExchangeMtu", m), "hooks": {}})
+            if m >= 23 and self.connected:
+                self.mtu = m
+            for _ in range(rng.randrange(1, 4)):
+                x = rng.random()
+                if x < 0.35 and longs:
+                    v = rng.choice(longs)
+                    evs.append({"op": "req", "req": ("Read", v["handle"]) if rng.random() < 0.6 else ("ReadBlob", v["handle"], rng.choice([0, 1])), "hooks": {}})
+                elif x < 0.55:
+                    evs.append({"op": "req", "req": ("FindInfo", 1, 0xFFFF), "hooks": {}})
+                elif x < 0.7:
+                    evs.append({"op": "req", "req": ("ReadByGroupType", 1, 0xFFFF, 0x2800), "hooks": {}})
+                elif x < 0.8:
+                    evs.append({"op": "req", "req": ("ReadByType", 1, 0xFFFF, 0x2803), "hooks": {}})
+                else:
+                    evs.append(self.event())
+        return evs
+
     def history(self, n):
         evs = []
         if self.rng.random() < 0.7:
